@@ -385,9 +385,10 @@ class Check:
             self.cov["samples"].append(obj)
 
     # ---- proof side
-    def proofs(self, extra_trusted=()):
-        """Regenerate Gen/, compile the property file, record obligations."""
-        errs = gen_sources()
+    def proofs(self, extra_trusted=(), only=None):
+        """Regenerate Gen/, compile the property file, record obligations.
+        only = list of translator components (tools/gen/g_<comp>.py) this property depends on; None = all."""
+        errs = gen_sources(only=only)
         gen_broken = {k: v for k, v in errs.items() if v}
         res = check_properties_file(self.prop)
         self.cov["obligations"] = len(res["theorems"])
